@@ -1,4 +1,5 @@
 """Prototype (throw-away): C10 fault injection differential. usage: q10.py SEED N"""
+import os; os.makedirs("/tmp/probe", exist_ok=True)
 import io, math, sys, copy as _copy
 import xml.etree.ElementTree as ET
 from collections import Counter
